@@ -62,3 +62,9 @@ func VerifPartitionLog(p Partition) queue.FanOutQueue {
 var VerifStepwise bool
 
 func verifStepwise() bool { return VerifStepwise }
+
+// VerifWalGC runs one pass of the write ahead log garbage collection(what the manager's ticker does):
+// every partition whose family log is expired is stopped, closed and removed.
+func VerifWalGC(mgr WriteAheadLogManager) {
+	mgr.(*writeAheadLogManager).garbageCollect()
+}
